@@ -1,6 +1,8 @@
 package world
 
 import (
+	"verif.local/sched"
+
 	"runtime"
 	"sync"
 	"sync/atomic"
@@ -60,6 +62,7 @@ func (c *Clock) Epoch() uint64 {
 }
 
 func (c *Clock) Now() time.Time {
+	sched.Point("clock", nil)
 	c.mu.Lock()
 	defer c.mu.Unlock()
 	c.Readings++
